@@ -108,6 +108,14 @@ func c06(c *Ctx) {
 				}
 			}
 		}
+		// the limit is a property of data messages: ErrReadLimit / the 1009 close never arise on a control-frame path
+		if es := strip(p.Results[1]); es.Kind == core.KLoad && es.Args[0].Kind == core.KGlobal && es.Args[0].Ref == interface{}(errLimit) {
+			for op := range ops {
+				if op >= 8 {
+					okO, whyO = false, fmt.Sprintf("ErrReadLimit is returned at %s on a path compatible with opcode %d: a control frame (whose payload is not counted) is refused because of the read limit, and the message around it can no longer be read", c.P.Pos(p.Ret.Pos()), op)
+				}
+			}
+		}
 		ft, e := p.Results[0], p.Results[1]
 		isData := e.IsNil() && (ops[0] || ops[1] || ops[2]) && !(ops[8] || ops[9] || ops[10])
 		if v, isC := ft.Int64(); isC && v == noFrame {
@@ -348,6 +356,10 @@ func c06(c *Ctx) {
 	}
 	r.Floor("C06.limit-owner", 1)
 	// the running sum is touched only by the frame parser and by NextReader's per-message reset
+	r.Rule("C06.error-reaches-reader", "ErrReadLimit reaches whoever reads the message: every Read method layered over the message reader passes inner errors other than io.EOF on (same rule as C05.reader-wrappers)")
+	if c.readerWrappers("C06.error-reaches-reader") < 4 {
+		r.Fail("C06.error-reaches-reader", "package", "floor", c.fn("(*joinReader).Read").Pos(), "fewer than the 4 known reader wrappers were analysed")
+	}
 	// the value whose sign is tested is the full 64-bit length the peer sent (no bit masked off before the test)
 	rd.parserRules("C06.sign", "", "", "")
 	rd.owners("C06.reset-per-message", rd.readLength, "(*Conn).advanceFrame", "(*Conn).NextReader")
